@@ -241,6 +241,46 @@ def gen_entry_cases(rng, seeds, n):
     return cases
 
 
+EXTREME_TIMES = ["2300-01-01T00:00:00.5Z", "9999-12-31T23:59:59.999999999Z", "0001-01-01T00:00:00.1Z", "1600-06-01T12:00:00.25+05:30",
+                 "2262-04-11T23:47:16.854775807Z", "2262-04-11T23:47:16.854775808Z", "1677-09-21T00:12:43.145224192Z", "1677-09-21T00:12:43.1Z",
+                 "9999-12-31T23:59:59Z", "0000-01-01T00:00:00Z", "9999-12-31T23:59:60.5Z", "2016-12-31T23:59:60.999Z", "1969-12-31T23:59:59.999999999Z",
+                 "+10000-01-01T00:00:00Z", "-0001-01-01T00:00:00Z", "2038-01-19T03:14:08.000000001Z", "9999-12-31T23:59:59.9+14:00",
+                 "0000-01-01T00:00:00.9-12:00", "2300-01-01T00:00:00,5Z", "2300-01-01T00:00:00.5"]
+
+
+def gen_time_cases(rng, seeds):
+    """every point in time the wire format can denote (years 0000-9999, fractions, leap seconds, offsets) and a few it cannot,
+    as a layout's expiry and as build timestamps: a value or an error"""
+    cases = []
+    for t in EXTREME_TIMES:
+        lay = copy.deepcopy(seeds.json["layout"][0] if seeds.json["layout"] else scen.mk_layout(None, keys={}))
+        lay["expires"] = t
+        for ep in ("layout", "wrapper_try", "wrapper_layout"):
+            cases.append({"op": "entry", "ep": ep, "data": json.dumps(lay, ensure_ascii=False), "meta": {"cls": "extreme_time_stamp"}})
+        mb = {"signatures": [], "signed": lay}
+        for ep in ("metablock", "metablock_str"):
+            cases.append({"op": "entry", "ep": ep, "data": json.dumps(mb, ensure_ascii=False), "meta": {"cls": "extreme_time_stamp"}})
+        for st in seeds.json["statement_json"] + seeds.json["predicate_json"]:
+            txt = json.dumps(st)
+            if "buildStartedOn" in txt or "buildFinishedOn" in txt:
+                d = json.loads(txt)
+
+                def setts(o):
+                    if isinstance(o, dict):
+                        for k in list(o):
+                            if k in ("buildStartedOn", "buildFinishedOn"):
+                                o[k] = t
+                            else:
+                                setts(o[k])
+                    elif isinstance(o, list):
+                        for x in o:
+                            setts(x)
+                setts(d)
+                cases.append({"op": "entry", "ep": "statement_json" if "_type" in d else "predicate_json", "data": json.dumps(d),
+                              "meta": {"cls": "extreme_time_stamp"}})
+    return cases
+
+
 HOSTILE_PATHS = ["a/./b", "./a", "a//b", "a/../a", "/abs", "", ".", "..", "a/b/../../..", "é", "a" * 5000, "*", "[", "a/./b/./c",
                  "x/../x", "./x", "x", "/", "//", "/usr/..", "src/", "src", "src/x"]
 
@@ -539,6 +579,8 @@ def shard(binpath, seed, sh, n, env=None, runner=None, tag="native"):
     cases += dirs
     cases += gen_signed_layout_cases(rng, W, seeds, max(20, n // 20), common.HARNESS / "target" / "release" / "itv")
     cases += gen_extreme_layout_cases(rng, W, common.HARNESS / "target" / "release" / "itv", sh, common.NPROC)
+    if sh in (2, 3):
+        cases += gen_time_cases(rng, seeds)
     if sh in (0, 1):
         cases += gen_self_similar_cases(rng, W, common.HARNESS / "target" / "release" / "itv")
     if sh == 0 and not runner:
@@ -757,7 +799,7 @@ def main(ctx):
                                     "statement_json", "predicate_json", "envelope")] + \
           ["ep:metablock:ok", "ep:pubkey_json:ok", "ep:spki:ok", "ep:pk8:ok", "ep:rules:ok", "ep:verify:err", "input:adversarial_json",
            "input:byte_mutation", "input:random_bytes", "input:hostile_link_dir", "input:rules_adversarial", "input:hostile_signed_layout",
-           "input:large", "input:inspection_over_special_files", "input:extreme_signed_layout", "input:self_similar_sublayout_directory_loop", "library_log_statements_formatted"]
+           "input:large", "input:inspection_over_special_files", "input:extreme_signed_layout", "input:self_similar_sublayout_directory_loop", "input:extreme_time_stamp", "library_log_statements_formatted"]
     return common.finish(
         PROP, ctx.tier, ctx.seed, res, t0=ctx.t0,
         rule="28 entry points (JSON decoders of every public type through slice/str, metadata wrappers, raw builder, key importers "
